@@ -35,6 +35,12 @@ def dtype_groups(f: FuncInfo, var: str) -> List[Tuple[str, List[str], ast.AST]]:
             val = s.value
         elif isinstance(s, ast.Assign) and len(s.targets) == 1 and norm(s.targets[0]) == var:
             val = s.value
+        elif isinstance(s, ast.Expr) and isinstance(s.value, ast.Call) and isinstance(s.value.func, ast.Attribute) and norm(s.value.func.value) == var \
+                and len(s.value.args) == 1:
+            if s.value.func.attr == "extend" and isinstance(s.value.args[0], (ast.List, ast.Tuple)):
+                val = ast.List(elts=list(s.value.args[0].elts), ctx=ast.Load())
+            elif s.value.func.attr == "append":
+                val = ast.List(elts=[s.value.args[0]], ctx=ast.Load())
         if val is None or not isinstance(val, ast.List):
             continue
         names = []
@@ -56,6 +62,13 @@ def row_groups(f: FuncInfo, var: str) -> List[Tuple[str, int, ast.AST]]:
             val = s.value
         elif isinstance(s, ast.Assign) and len(s.targets) == 1 and norm(s.targets[0]) == var and isinstance(s.value, ast.Tuple) and s.value.elts:
             val = s.value
+        elif isinstance(s, ast.Expr) and isinstance(s.value, ast.Call) and isinstance(s.value.func, ast.Attribute) and norm(s.value.func.value) == var \
+                and len(s.value.args) == 1:
+            # a row built in a list and converted with tuple(): `.extend((a, b))` adds len values, `.append(x)` one
+            if s.value.func.attr == "extend" and isinstance(s.value.args[0], (ast.List, ast.Tuple)):
+                val = ast.Tuple(elts=list(s.value.args[0].elts), ctx=ast.Load())
+            elif s.value.func.attr == "append":
+                val = ast.Tuple(elts=[s.value.args[0]], ctx=ast.Load())
         if val is None or not isinstance(val, ast.Tuple):
             continue
         out.append((_guard_of(s, f.node), len(val.elts), s))
@@ -71,8 +84,12 @@ def builder_vars(f: FuncInfo):
             if isinstance(dt, ast.Name):
                 rows = n.args[0].id
                 for a in own_nodes(f.node):
-                    if isinstance(a, ast.Call) and norm(a.func) == f"{rows}.append" and a.args and isinstance(a.args[0], ast.Name):
-                        return dt.id, a.args[0].id
+                    if isinstance(a, ast.Call) and norm(a.func) == f"{rows}.append" and a.args:
+                        r = a.args[0]
+                        if isinstance(r, ast.Call) and norm(r.func) in ("tuple", "list") and len(r.args) == 1:
+                            r = r.args[0]
+                        if isinstance(r, ast.Name):
+                            return dt.id, r.id
     raise AnalysisError("F4a", f.qname, "np.array(<rows>, dtype=<fields>) / <rows>.append(<row>) not found")
 
 
